@@ -103,115 +103,154 @@ def identityIdx (o : XOps α) (mask : List α) : List Nat :=
 def transformIdx (o : XOps α) (mask : List α) : List Nat :=
   (List.range mask.length).filter (fun i => o.gt (mask.getD i o.zero) o.zero)
 
+/-! ## Pure functional form of the tensor loops
+
+The three nested loops `for b in [0:B] for t in [0:n] for s in [0:S]` of the coupling layer and the two nested loops of
+the autoregressive / CDF passes are written as lists in ITERATION ORDER; the mutable state of the loops is recovered
+from those lists by left folds (`applyUpd`: writes into the output buffer, `ldFold`: left-to-right accumulation of the
+log-dets of a row, `firstErr`: first error raised, `altsOf`: the cons-accumulated alternatives).  Theorems about these
+definitions: `Lemmas/StructureExec.lean`. -/
+
+/-- flat row-major index into a `[B, C, S]` tensor -/
+@[inline] def flatIdx (C S b ch s : Nat) : Nat := (b * C + ch) * S + s
+
+/-- the outcome of one element-wise transformer call: `(output, log|derivative|, admissible alternative outputs)` -/
+abbrev ElRes (α : Type) := Except Err (α × α × List α)
+
+/-- iteration order of `for t in [0:n] for s in [0:S]` -/
+def rowIter (n S : Nat) : List (Nat × Nat) := (List.range n).flatMap fun t => (List.range S).map fun s => (t, s)
+
+/-- the first error in iteration order (`if err.isNone then err := some e`) -/
+def firstErr (rs : List (ElRes α)) : Option Err :=
+  rs.findSome? fun r => match r with | .error e => some e | .ok _ => none
+
+/-- left-to-right accumulation of the log-dets of the successful elements of one row, starting from zero
+    (`ldRow[b] := ldRow[b] + l`; floating-point addition is not associative, the order is part of the model) -/
+def ldFold (o : XOps α) (rs : List (ElRes α)) : α :=
+  rs.foldl (fun acc r => match r with | .ok (_, l, _) => o.add acc l | .error _ => acc) o.zero
+
+/-- the log-det of an element outcome (zero where the element raised) -/
+def ldOf (o : XOps α) (r : ElRes α) : α := match r with | .ok (_, l, _) => l | .error _ => o.zero
+
+/-- the output of an element outcome in the element-wise passes (zero where the element raised) -/
+def outOf (o : XOps α) (r : ElRes α) : α := match r with | .ok (y, _, _) => y | .error _ => o.zero
+
+/-- write the outputs of the successful elements into the buffer (`out := out.set! j y`; out-of-range: no-op) -/
+def applyUpd (us : List (Nat × ElRes α)) (a : Array α) : Array α :=
+  us.foldl (fun a u => match u.2 with | .ok (y, _, _) => a.set! u.1 y | .error _ => a) a
+
+/-- the alternatives list as the loops build it (`alts := (j, al) :: alts`, hence reversed iteration order) -/
+def altsOf (us : List (Nat × ElRes α)) : List (Nat × List α) :=
+  (us.filterMap fun u => match u.2 with
+    | .ok (_, _, al) => if !al.isEmpty then some (u.1, al) else none
+    | .error _ => none).reverse
+
 /-- gather `x[:, idx, ...]` of a `[B, C, S]` tensor into `[B, |idx|, S]` -/
-def gatherCh (x : Array α) (B C S : Nat) (idx : List Nat) (dflt : α) : Array α := Id.run do
-  let mut out : Array α := Array.mkEmpty (B * idx.length * S)
-  for b in [0:B] do
-    for c in idx do
-      for s in [0:S] do
-        out := out.push (x.getD ((b * C + c) * S + s) dflt)
-  return out
+def gatherCh (x : Array α) (B C S : Nat) (idx : List Nat) (dflt : α) : Array α :=
+  ((List.range B).flatMap fun b => idx.flatMap fun c => (List.range S).map fun s =>
+    x.getD (flatIdx C S b c s) dflt).toArray
+
+/-- parameter vector of the unconditional transform of identity feature `ipos` at spatial position `sp`
+    (shared across the batch) -/
+def ucSlice (o : XOps α) (m S : Nat) (uparams : Array α) (ipos sp : Nat) : List α :=
+  (List.range m).map (fun k => uparams.getD ((ipos * S + sp) * m + k) o.zero)
+
+/-- parameter vector of transformed feature `tpos` of row `b` at spatial position `s`: conditioner output
+    `[B, Ft*m, S]` viewed `[B, Ft, m, S]` -/
+def condSlice (o : XOps α) (m Ft S : Nat) (params : Array α) (b tpos s : Nat) : List α :=
+  (List.range m).map (fun k => params.getD ((b * (Ft * m) + (tpos * m + k)) * S + s) o.zero)
+
+/-- the conditional element-wise transformer at `(b, tpos, s)` applied to the value `xi` -/
+def couplingEl (o : XOps α) (c : ElCfg) (Ft S : Nat) (params : Array α) (inverse : Bool) (b tpos s : Nat) (xi : α) :
+    ElRes α :=
+  if c.kind == "affine" then
+    let shift := params.getD ((b * (2 * Ft) + tpos) * S + s) o.zero
+    let u := params.getD ((b * (2 * Ft) + (Ft + tpos)) * S + s) o.zero
+    let scale := if c.act == "general" then o.clamp o.zero (o.ofNat 3) (o.add (o.softplus u) (o.ofFloat 1e-3))
+                 else o.add (o.sigmoid (o.add u o.two)) (o.ofFloat 1e-3)
+    (scaleShiftT o scale shift inverse xi).map (fun (a, l) => (a, l, []))
+  else if c.kind == "additive" then
+    let shift := params.getD ((b * Ft + tpos) * S + s) o.zero
+    (scaleShiftT o o.one shift inverse xi).map (fun (a, l) => (a, l, []))
+  else
+    elTransform o c inverse (condSlice o c.mult Ft S params b tpos s) xi
+
+/-- row `b` of a pass `for t in [0:idx.length] for s in [0:S]` over the channels listed in `idx`:
+    `(flat index written, result)` in iteration order; element `(t, s)` applies `el t s` to the value READ from `x` -/
+def tRow (o : XOps α) (C S : Nat) (idx : List Nat) (x : Array α) (el : Nat → Nat → α → ElRes α) (b : Nat) :
+    List (Nat × ElRes α) :=
+  (rowIter idx.length S).map fun (t, s) =>
+    let j := flatIdx C S b (idx.getD t 0) s
+    (j, el t s (x.getD j o.zero))
+
+/-- row `b` of the unconditional transform of the identity features (coupling.py:92-96, 121-125); the elements read
+    the layer INPUT `x`; parameters are shared across the batch -/
+def ucRow (o : XOps α) (uc : Option ElCfg) (C S : Nat) (idI : List Nat) (x uparams : Array α) (inverse : Bool)
+    (b : Nat) : List (Nat × ElRes α) :=
+  match uc with
+  | none => []
+  | some ucfg => tRow o C S idI x (fun ipos sp => elTransform o ucfg inverse (ucSlice o ucfg.mult S uparams ipos sp)) b
+
+/-- row `b` of the conditional transform of the transform features; the elements read the layer INPUT `x` -/
+def condRow (o : XOps α) (c : ElCfg) (C S : Nat) (idT : List Nat) (x params : Array α) (inverse : Bool)
+    (b : Nat) : List (Nat × ElRes α) :=
+  tRow o C S idT x (fun tpos s => couplingEl o c idT.length S params inverse b tpos s) b
+
+/-- the buffer after the unconditional transform of the identity features (`x` itself when there is none) -/
+def couplingUncond (o : XOps α) (mask : List α) (B S : Nat) (x : Array α) (inverse : Bool)
+    (uc : Option ElCfg) (uparams : Array α) : Array α :=
+  applyUpd ((List.range B).flatMap
+    (ucRow o uc mask.length S (identityIdx o mask) x uparams inverse)) x
 
 /-- coupling layer, one direction.  `params` is the conditioner output `[B, Ft*m, S]` (affine: `[B, 2*Ft, S]`
-    with shifts first, unconstrained scales second — coupling.py:224-228).  `x : [B, C, S]`. -/
+    with shifts first, unconstrained scales second — coupling.py:224-228).  `x : [B, C, S]`.
+    Identity features are copied unchanged (coupling.py:104-106); the unconditional transform of the identity features
+    runs AFTER the conditioner saw the raw identity split in the forward direction (coupling.py:92-96) and BEFORE the
+    conditioner, which is fed the un-transformed values, in the inverse direction (coupling.py:121-125). -/
 def couplingApply (o : XOps α) (c : ElCfg) (mask : List α) (B S : Nat) (x params : Array α) (inverse : Bool)
-    (uc : Option ElCfg := none) (uparams : Array α := #[]) : TResult α := Id.run do
+    (uc : Option ElCfg := none) (uparams : Array α := #[]) : TResult α :=
   let C := mask.length
   let idI := identityIdx o mask
   let idT := transformIdx o mask
-  let Ft := idT.length
-  let mut out : Array α := x        -- identity features are copied unchanged (coupling.py:104-106)
-  let mut ldRow : Array α := (List.replicate B o.zero).toArray   -- sum_except_batch of all per-element log-dets
-  let mut err : Option Err := none
-  let mut alts : List (Nat × List α) := []
-  -- unconditional transform of the identity features (coupling.py:92-96 forward: AFTER the conditioner saw the raw
-  -- identity split; coupling.py:121-125 inverse: BEFORE the conditioner, which is fed the un-transformed values)
-  match uc with
-  | some ucfg =>
-    let m := ucfg.mult
-    for b in [0:B] do
-      for ipos in [0:idI.length] do
-        let ch := idI.getD ipos 0
-        for sp in [0:S] do
-          let xi := x.getD ((b * C + ch) * S + sp) o.zero
-          let p := (List.range m).map (fun k => uparams.getD ((ipos * S + sp) * m + k) o.zero)
-          match elTransform o ucfg inverse p xi with
-          | .ok (y, l, _) =>
-            out := out.set! ((b * C + ch) * S + sp) y
-            ldRow := ldRow.set! b (o.add (ldRow.getD b o.zero) l)
-          | .error e =>
-            if err.isNone then err := some e
-  | none => pure ()
-  -- what the conditioner is given
-  let condIn := if inverse then gatherCh out B C S idI o.zero else gatherCh x B C S idI o.zero
-  for b in [0:B] do
-    for tpos in [0:Ft] do
-      let ch := idT.getD tpos 0
-      for s in [0:S] do
-        let xi := x.getD ((b * C + ch) * S + s) o.zero
-        let r : Except Err (α × α × List α) :=
-          if c.kind == "affine" then
-            let shift := params.getD ((b * (2 * Ft) + tpos) * S + s) o.zero
-            let u := params.getD ((b * (2 * Ft) + (Ft + tpos)) * S + s) o.zero
-            let scale := if c.act == "general" then o.clamp o.zero (o.ofNat 3) (o.add (o.softplus u) (o.ofFloat 1e-3))
-                         else o.add (o.sigmoid (o.add u o.two)) (o.ofFloat 1e-3)
-            (scaleShiftT o scale shift inverse xi).map (fun (a, l) => (a, l, []))
-          else if c.kind == "additive" then
-            let shift := params.getD ((b * Ft + tpos) * S + s) o.zero
-            (scaleShiftT o o.one shift inverse xi).map (fun (a, l) => (a, l, []))
-          else
-            let m := c.mult
-            let p := (List.range m).map (fun k => params.getD ((b * (Ft * m) + (tpos * m + k)) * S + s) o.zero)
-            elTransform o c inverse p xi
-        match r with
-        | .ok (y, l, al) =>
-          out := out.set! ((b * C + ch) * S + s) y
-          ldRow := ldRow.set! b (o.add (ldRow.getD b o.zero) l)
-          if !al.isEmpty then alts := ((b * C + ch) * S + s, al) :: alts
-        | .error e =>
-          if err.isNone then err := some e
-  return { out := out, ld := ldRow.toList, err := err, condIn := condIn, alts := alts }
+  let rows : List (List (Nat × ElRes α) × List (Nat × ElRes α)) :=
+    (List.range B).map fun b => (ucRow o uc C S idI x uparams inverse b, condRow o c C S idT x params inverse b)
+  let ucAll := rows.flatMap (·.1)
+  let cAll := rows.flatMap (·.2)
+  let out1 := applyUpd ucAll x
+  { out := applyUpd cAll out1,
+    ld := rows.map (fun r => ldFold o ((r.1 ++ r.2).map (·.2))),   -- sum_except_batch of all per-element log-dets
+    err := firstErr ((ucAll ++ cAll).map (·.2)),
+    condIn := if inverse then gatherCh out1 B C S idI o.zero else gatherCh x B C S idI o.zero,  -- what the conditioner is given
+    alts := altsOf cAll }
+
+/-- a `[B, n]` element-wise pass whose element `(b, i)` has outcome `el b i`: outputs and log-dets (zero where the
+    element raised), row sums, first error, alternatives -/
+def elemwiseResult (o : XOps α) (B n : Nat) (el : Nat → Nat → ElRes α) : TResult α :=
+  let rs : List (Nat × ElRes α) := (List.range B).flatMap fun b => (List.range n).map fun i => (b * n + i, el b i)
+  { out := (rs.map fun u => outOf o u.2).toArray,
+    ld := sumRows o B (rs.map fun u => ldOf o u.2).toArray,
+    err := firstErr (rs.map (·.2)),
+    alts := altsOf rs }
+
+/-- element `(b, i)` of an autoregressive pass: parameters `params[b, i, :]` -/
+def arEl (o : XOps α) (c : ElCfg) (F : Nat) (x params : Array α) (inverse : Bool) (b i : Nat) : ElRes α :=
+  let m := if c.kind == "araffine" then 2 else c.mult
+  elTransform o c inverse ((List.range m).map (fun k => params.getD ((b * F + i) * m + k) o.zero))
+    (x.getD (b * F + i) o.zero)
 
 /-- one elementwise pass of an autoregressive transform: `x : [B, F]`, `params : [B, F*m]` viewed `[B, F, m]`. -/
-def arApply (o : XOps α) (c : ElCfg) (B F : Nat) (x params : Array α) (inverse : Bool) : TResult α := Id.run do
-  let m := if c.kind == "araffine" then 2 else c.mult
-  let mut out : Array α := Array.mkEmpty (B * F)
-  let mut lds : Array α := Array.mkEmpty (B * F)
-  let mut err : Option Err := none
-  let mut alts : List (Nat × List α) := []
-  for b in [0:B] do
-    for i in [0:F] do
-      let xi := x.getD (b * F + i) o.zero
-      let p := (List.range m).map (fun k => params.getD ((b * F + i) * m + k) o.zero)
-      match elTransform o c inverse p xi with
-      | .ok (y, l, al) =>
-        out := out.push y; lds := lds.push l
-        if !al.isEmpty then alts := (b * F + i, al) :: alts
-      | .error e =>
-        if err.isNone then err := some e
-        out := out.push o.zero; lds := lds.push o.zero
-  return { out := out, ld := sumRows o B lds, err := err, alts := alts }
+def arApply (o : XOps α) (c : ElCfg) (B F : Nat) (x params : Array α) (inverse : Bool) : TResult α :=
+  elemwiseResult o B F (arEl o c F x params inverse)
+
+/-- element `(b, i)` of a `Piecewise*CDF`: parameters `params[i, :]`, the same for every row -/
+def cdfEl (o : XOps α) (c : ElCfg) (n : Nat) (x params : Array α) (inverse : Bool) (b i : Nat) : ElRes α :=
+  elTransform o c inverse ((List.range c.mult).map (fun k => params.getD (i * c.mult + k) o.zero))
+    (x.getD (b * n + i) o.zero)
 
 /-- `Piecewise*CDF`: `x : [B, n]` (n = product of `shape`), `params : [n, m]` shared across the batch
     (nonlinearities.py:228-229 `_share_across_batch`). -/
-def cdfApply (o : XOps α) (c : ElCfg) (B n : Nat) (x params : Array α) (inverse : Bool) : TResult α := Id.run do
-  let m := c.mult
-  let mut out : Array α := Array.mkEmpty (B * n)
-  let mut lds : Array α := Array.mkEmpty (B * n)
-  let mut err : Option Err := none
-  let mut alts : List (Nat × List α) := []
-  for b in [0:B] do
-    for i in [0:n] do
-      let xi := x.getD (b * n + i) o.zero
-      let p := (List.range m).map (fun k => params.getD (i * m + k) o.zero)
-      match elTransform o c inverse p xi with
-      | .ok (y, l, al) =>
-        out := out.push y; lds := lds.push l
-        if !al.isEmpty then alts := (b * n + i, al) :: alts
-      | .error e =>
-        if err.isNone then err := some e
-        out := out.push o.zero; lds := lds.push o.zero
-  return { out := out, ld := sumRows o B lds, err := err, alts := alts }
+def cdfApply (o : XOps α) (c : ElCfg) (B n : Nat) (x params : Array α) (inverse : Bool) : TResult α :=
+  elemwiseResult o B n (cdfEl o c n x params inverse)
 
 /-- element-wise non-linearity over a `[B, n]` batch with summed log-dets (nonlinearities.py, standard.py) -/
 def nonlinApply (o : XOps α) (kind : String) (ds : Array Float) (ps : List α) (B : Nat) (x : Array α) (inverse : Bool) : TResult α := Id.run do
